@@ -5,6 +5,7 @@ import itertools
 ATTRS = ['A', 'B', 'C', 'D', 'E', 'F', 'G', 'H', 'I']
 SIZES_MAIN = [2, 3, 2, 2, 3, 2, 2, 2, 2]
 SIZES_ONE = [1, 3, 2, 2, 2, 2, 2, 2, 2]   # contains a size-1 attribute
+SIZES_BIG = [2, 36, 2, 36, 2]            # two attributes whose joint table has > 1000 cells (separator-size dependent choices)
 
 
 def sizes_for(name, k):
